@@ -5,6 +5,7 @@ import (
 	"errors"
 
 	"google.golang.org/grpc"
+	"google.golang.org/grpc/status"
 
 	"github.com/ozontech/seq-db/consts"
 	"github.com/ozontech/seq-db/pkg/storeapi"
@@ -19,6 +20,7 @@ func (e vStoreErr) Error() string { return e.msg }
 
 // vErrMessage stands for status.Convert(err).Message() on the harness's errors.
 func vErrMessage(err error) string { return err.Error() }
+func vErrMessage2(_ func(error) *status.Status, err error) string { return err.Error() }
 
 const (
 	vOK = iota
